@@ -218,11 +218,28 @@ impl<'a> Pool<'a> {
         format!("M{}", id)
     }
 
+    /// declare environment variables for the item (C18)
+    fn with_env(&mut self, mut n: Names, id: Id) -> Names {
+        if self.o.env && self.rng.chance(2, 3) {
+            n.envs.push(format!("BPAF_VERIF_ENV_{}", id));
+            if self.rng.chance(1, 5) {
+                n.envs.push(format!("BPAF_VERIF_ENV_{}_B", id));
+            }
+            // environment only, no name on the command line
+            if self.rng.chance(1, 10) {
+                n.shorts.clear();
+                n.longs.clear();
+            }
+        }
+        n
+    }
+
     pub fn flag_item(&mut self, leaf: Leaf) -> Item {
         let id = self.id();
+        let n = self.names();
         Item {
             id,
-            names: self.names(),
+            names: self.with_env(n, id),
             help: self.help(id),
             leaf,
         }
@@ -231,9 +248,10 @@ impl<'a> Pool<'a> {
     pub fn arg_item(&mut self) -> Item {
         let id = self.id();
         let adjacent = self.o.adjacent_args && self.rng.chance(1, 8);
+        let n = self.names();
         Item {
             id,
-            names: self.names(),
+            names: self.with_env(n, id),
             help: self.help(id),
             leaf: Leaf::Arg {
                 ty: self.ty(),
